@@ -208,7 +208,7 @@ func (fv *FV) applyContract(st *State, call *ast.CallExpr, fc *FuncContract, sel
 			rv = fv.evalExpr(st, sel.X)
 		}
 		// adapt receiver to the declared receiver type
-		if rt := sig.Recv(); rt != nil {
+		if rt := fc.Obj.Type().(*types.Signature).Recv(); rt != nil {
 			want := fv.ss.Of(rt.Type())
 			if want != rv.Sort {
 				switch {
@@ -224,6 +224,11 @@ func (fv *FV) applyContract(st *State, call *ast.CallExpr, fc *FuncContract, sel
 					fv.assert(st, "nil-deref", tNot(tEq(rv, T("bnil", SBig))), sel.Pos(), "method call through nil pointer")
 					rv = bigVal(rv)
 					rp = nil
+				case want.Kind == KPtr && rv.Sort.Kind == KOpaque && fv.refPtr(rv.Sort) == want:
+					// receiver reached through a recursive reference: box its current pointee (updates are not written back)
+					rv = tIte(tEq(rv, Term{fv.ss.Zero(rv.Sort), rv.Sort}), ptrNil(want), ptrMk(want, Term{sx("deref_"+rv.Sort.Name, rv.S), want.Elem}))
+					rp = nil
+					fv.note("method call through a recursive pointer field: modifications of the pointee are not written back (no heap model)")
 				case want.Kind == KOpaque || want.Kind == KSum || want.Kind == KErr:
 					rv = fv.box(st, rv, fv.info.TypeOf(sel.X), want, sel.Pos())
 				default:
@@ -366,6 +371,11 @@ func (fv *FV) applyContract(st *State, call *ast.CallExpr, fc *FuncContract, sel
 		fv.calleesUsed[funcKey(fc.Obj)] = true
 	}
 	return results
+}
+
+func (fv *FV) refPtr(ref *Sort) *Sort {
+	_, p := fv.ss.RefTarget(ref)
+	return p
 }
 
 // callFuncValue: call of a function-typed variable/field.
